@@ -93,6 +93,10 @@ func c10Run(env *core.Env, idx int) core.CaseResult {
 		o.HTTP = rng.Intn(3) == 0
 	}
 	w := gen.GenWorld(rng, o)
+	if multi && idx%10 == 1 {
+		// the same reference graph served from http locations: other ports, hosts and schemes with namesake paths
+		w = gen.Relocate(w, gen.Layouts[(idx/10)%len(gen.Layouts)])
+	}
 	if !multi {
 		// an element whose schema names itself with an (absolute) id and refers to the root below it: "#/..." still means the root
 		if rd, ok := w.Docs[w.Root].(map[string]interface{}); ok {
